@@ -126,7 +126,7 @@ class _Rename(ast.NodeTransformer):
 
 def _helper_ok(g: FunctionInfo) -> bool:
     node = g.node
-    if isinstance(node, ast.AsyncFunctionDef) or node.decorator_list:
+    if isinstance(node, ast.AsyncFunctionDef) or [d for d in node.decorator_list if not (isinstance(d, ast.Name) and d.id == "staticmethod")]:
         return False
     a = node.args
     if a.vararg:
@@ -189,12 +189,13 @@ def _resolve_helper(prog: Program, f: FunctionInfo, call: ast.Call, known: Set[s
             g = r
     elif isinstance(fn, ast.Attribute) and isinstance(fn.value, ast.Name) and f.cls is not None and f.params and fn.value.id == f.params[0]:
         m = prog.find_method(f.cls, fn.attr)
-        if m is not None and not m.is_property and not any(isinstance(d, ast.Name) and d.id in ("staticmethod", "classmethod") for d in m.node.decorator_list):
+        if m is not None and not m.is_property and not any(isinstance(d, ast.Name) and d.id in ("classmethod",) for d in m.node.decorator_list):
             # an override in a subclass would make the static target wrong
             overridden = any(isinstance(c, ClassInfo) and c is not m.cls and fn.attr in c.methods and m.cls in prog.mro(c) for mod in prog.modules.values() for c in mod.classes.values())
             if not overridden:
                 g = m
-                recv = fn.value
+                # a static method called through the instance takes no receiver
+                recv = None if any(isinstance(d, ast.Name) and d.id == "staticmethod" for d in m.node.decorator_list) else fn.value
     if g is None or g is f or g.short in known or not _helper_ok(g):
         return None
     if any(isinstance(a, ast.Starred) for a in call.args):
@@ -485,13 +486,20 @@ class Inliner:
                 body = list(g.node.body)
                 if body and isinstance(body[0], ast.Expr) and isinstance(body[0].value, ast.Constant) and isinstance(body[0].value.value, str):
                     body = body[1:]
-                if _stored_names(body):
+                comp_locals = set()
+                for st_ in body:
+                    for x_ in ast.walk(st_):
+                        if isinstance(x_, ast.comprehension):
+                            comp_locals |= {y_.id for y_ in ast.walk(x_.target) if isinstance(y_, ast.Name)}
+                if _stored_names(body) - comp_locals:
                     return c  # locals: not a pure expression
+                if comp_locals & (set(binding) | {y_.id for a_ in list(c.args) + [k_.value for k_ in c.keywords] for y_ in ast.walk(a_) if isinstance(y_, ast.Name)}):
+                    return c  # a comprehension variable would capture an argument name
                 try:
                     expr = _predicate_expr(body)
                 except NotEligible:
                     return c
-                if not _free_names_agree(inl.prog, g, f, set(binding)):
+                if not _free_names_agree(inl.prog, g, f, set(binding) | comp_locals):
                     return c
                 new = _Rename(dict(binding)).visit(expr)  # type: ignore[arg-type]
                 ast.copy_location(new, c)
